@@ -109,3 +109,27 @@ def classify_stop(sim):
             return 'livelock'
         return 'inconclusive'
     return r
+
+
+def blame(exc):
+    """'aiuti' if the exception's traceback passes through the code under test
+    (then it is an observation: the program died), else 'harness'."""
+    tb = exc.__traceback__
+    while tb is not None:
+        if '/aiuti/' in tb.tb_frame.f_code.co_filename:
+            return 'aiuti'
+        tb = tb.tb_next
+    return 'harness'
+
+
+def thread_exc_violations(thread_excs, V):
+    """Split thread exceptions into violations (died inside / because of the code
+    under test) and harness errors."""
+    viol, harness = [], []
+    for name, e in thread_excs:
+        if blame(e) == 'aiuti':
+            viol.append(V('thread-died', f'thread {name} died with {e!r} raised through aiuti code',
+                          'thread-died:' + type(e).__name__))
+        else:
+            harness.append((name, e))
+    return viol, harness
